@@ -272,3 +272,20 @@ package smgp30
 //@   ensures [C18 donedate] keyPos(s, "done date", "Done_Date") != -1 ==> d.DoneDate == cut(fieldAt(s, keyPos(s, "done date", "Done_Date"), 10), 10)
 //@   ensures [C18 text] keyPos(s, "text", "Text") != -1 ==> d.Text == cut(fieldAt(s, keyPos(s, "text", "Text"), 5), 20)
 //@   ensures [C18 id] sindex(s, "id:") != -1 && len(s) >= sindex(s, "id:") + 13 ==> d.ID == hexenc(ext(s, sindex(s, "id:") + 3, sindex(s, "id:") + 13))
+
+// ---------------------------------------------------------------- constructors and response headers (C10)
+//@ func NewActiveTestPacket
+//@   props C10
+//@   ensures [C10 image] result == cat(be32(12), be32(int(smgp.CommandActiveTest)), be32(int(seqID)))
+//@ func (p *ActiveTest) GenerateResponseHeader
+//@   props C10
+//@   requires p != nil
+//@   ensures [C10 pair] result != nil && result.Header.CommandID == smgp.CommandActiveTestResp && result.Header.SequenceID == p.Header.SequenceID
+//@ func (d *Deliver) GenerateResponseHeader
+//@   props C10
+//@   requires d != nil
+//@   ensures [C10 pair] result != nil && result.Header.CommandID == smgp.CommandDeliverResp && result.Header.SequenceID == d.Header.SequenceID
+//@ func (t *Exit) GenerateResponseHeader
+//@   props C10
+//@   requires t != nil
+//@   ensures [C10 pair] result != nil && result.Header.CommandID == smgp.CommandExitResp && result.Header.SequenceID == t.Header.SequenceID
